@@ -751,6 +751,21 @@ func NewLockedSpendMonitor(e *Env) *Monitor {
 			e.C.Count("unlocks_observed", 1)
 			e.C.Distinct(fmt.Sprintf("unlock/%s/%s/%s/%s/%s", kindOf(addr), rel, gr, extra, out))
 		}
+		// "... and then by exactly min(fee, locked)": a transaction with a top-level WRKChain/BEACON
+		// message that passed the pre-execution stage, paid by an account with locked eFUND and a
+		// positive fee in the enterprise denomination, DOES reduce the payer's locked eFUND by that amount
+		if top && !anteFailed {
+			if pa, ok := pre.Accts[payer]; ok {
+				fee := tx.Spec.Fee.AmountOf(pre.EntParams.Denom)
+				want := math.MinInt(fee, pa.Locked)
+				if want.IsPositive() {
+					if got := pa.Locked.Sub(post.Accts[payer].Locked); !got.Equal(want) {
+						viol("unlock-missing", "payer-with-locked-efund", "tx %s (fee %s) passed the pre-execution checks; its payer %s held %s locked eFUND, which fell by %s instead of min(fee, locked) = %s", tx.Desc, tx.Spec.Fee, payer, pa.Locked, got, want)
+					}
+					e.C.Count("unlocks_required", 1)
+				}
+			}
+		}
 	}
 	return mon
 }
